@@ -97,7 +97,7 @@ class C14(hc.PProp):
         recs, sent = cf.analyse(hist, plan)
         stats = {'n304_judged': 0, 'cond_hits_judged': 0, 'post304_hits_judged': 0, 'n412': 0}
         for r in recs:
-            if r.u is None or hc.is_squid_error(r.resp):
+            if r.u is None or (hc.is_squid_error(r.resp) and r.resp.status != 412):     # squid's own 412 page is an answer to judge, other error pages are not
                 continue
             url = plan['urls'][r.u]; m = r.resp
             hd = {k.lower(): v for k, v in r.step['hdrs']}
@@ -117,6 +117,11 @@ class C14(hc.PProp):
                     V.append(Violation('C14:412-without-if-match', 'request %s got 412 without If-Match' % r.id))
                 elif avail and all(im_matches(hd['if-match'], r.u, v, url.get('weak_etag')) for v in avail) and url['etag']:
                     V.append(Violation('C14:412-despite-match', 'request %s If-Match %r matches every version %s yet got 412' % (r.id, hd['if-match'], avail)))
+                elif not r.contacts and url['etag']:
+                    # a 412 produced without contacting the origin was evaluated against the cached response, i.e. the version squid fetched last
+                    last = [s for s in sent if s[2] == r.u and s[0] < r.seq_send]
+                    if last and im_matches(hd['if-match'], r.u, last[-1][3], url.get('weak_etag')):
+                        V.append(Violation('C14:412-despite-match', 'request %s If-Match %r matches the cached version %d of url %d yet got 412 from the cache' % (r.id, hd['if-match'], last[-1][3], r.u)))
                 continue
             if m.status != 200 or r.ver is None:
                 continue
